@@ -23,6 +23,9 @@ structure PipeWorld where
   learned : List (Bytes × Listener) := []
   proxies : Array PipeProxy := #[]
   failing : List Bytes := []          -- environment: backends whose Send fails at the moment (`pipe bfail`)
+  timeout : Nat := 1200               -- dialog timeout of the service, seconds
+  now : Nat := 0                      -- virtual clock of the case, seconds (`pipe pinwait`)
+  pinExp : List (Nat × Bytes × Nat) := []   -- (proxy, key, instant at which the binding stops being honoured): Side.Pins.lifetime
 
 def kvArgs (a : List String) : List (String × String) :=
   a.filterMap fun t =>
@@ -89,7 +92,8 @@ def execPipe (w : PipeWorld) (op : String) (a : List String) : PipeWorld × Stri
       match r with
       | [n, ip] => assocSet h n ip
       | _ => h) []
-    ({ name := unhex (kvGet m "name"), keep := kvGet m "keep" == "1", hosts := hosts, routes := routes }, "ok")
+    ({ name := unhex (kvGet m "name"), keep := kvGet m "keep" == "1", hosts := hosts, routes := routes,
+       timeout := if kvGet m "timeout" == "" then 1200 else parseNat (kvGet m "timeout") }, "ok")
   | "proxy" =>
     let (lst, rcvd) := parseListenerTok (kvGet m "lst")
     let bk := kvGet m "backends"
@@ -110,6 +114,8 @@ def execPipe (w : PipeWorld) (op : String) (a : List String) : PipeWorld × Stri
       let x := unhex addr
       ({ w with failing := if on == "1" then x :: w.failing else w.failing.filter (· != x) }, "ok")
     | _ => (w, "bad-op")
+  | "pinwait" =>                   -- time passes for the bindings of the dialog / transaction table (stored instants move into the past)
+    ({ w with now := w.now + parseNat (a.getLastD "0") }, "ok")
   | "tick" => (w, "ok")            -- time passes for the sweep of the transport table: entries live an hour, nothing expires
   | "branches" => (w, "skip")
   | "rawd" => (w, "skip")          -- hostile-input stream: oracles only (no panic, bounded allocation)
@@ -126,6 +132,17 @@ def execPipe (w : PipeWorld) (op : String) (a : List String) : PipeWorld × Stri
         let ev : RawEv := { peerAddr := unhex (kvGet m "peer"), peerPort := parseInt (kvGet m "port"), frm := frm,
                             receivedSupport := rcvd, tcpConn := if tcp == "-" then none else some (parseNat tcp),
                             msg := msg, rxMatch := kvGet m "rx" == "1", branch := branchToken }
+        -- bindings whose lifetime (Side.Pins.lifetime: max(timeout, Expires), from the moment they were stored) has elapsed are
+        -- not honoured any more; the step itself knows no time, so they are dropped before it runs. The bindings that
+        -- survive are marked (their `expires` field, which the step only stores, carries their index) so that the ones
+        -- the step stores or stores AGAIN can be told apart afterwards: those start a new lifetime now.
+        let alive (e : PinEntry) : Bool :=
+          match w.pinExp.find? (fun x => x.1 == i && x.2.1 == e.key) with
+          | some x => x.2.2 > w.now
+          | none => true
+        let saved := p.st.pins.filter alive
+        let mark : Int := -1000000000000000
+        let p : PipeProxy := { p with st := { p.st with pins := saved.mapIdx fun k e => { e with expires := mark - (k : Int) } } }
         let cfg := mkCfg w p
         let st0 := { p.st with learned := w.learned }
         let (st1, outs) := step cfg st0 ev
@@ -151,7 +168,21 @@ def execPipe (w : PipeWorld) (op : String) (a : List String) : PipeWorld × Stri
         let res := s!"n={obs.length}" ++ (if obs.isEmpty then "" else " " ++ String.intercalate " " obs)
         let res := res ++ " keys+=" ++ bracket (sortStrings (added.map fun e => e.1 ++ "/" ++ e.2))
                        ++ " keys-=" ++ bracket (sortStrings (removed.map (·.1)))
-        ({ w with learned := st1.learned, proxies := w.proxies.set! i { p with st := st1 } }, res)
+        let fresh := st1.pins.filter (fun e => e.expires > mark)
+        let lifetime (e : PinEntry) : Nat := if e.expires > 0 && e.expires.toNat > w.timeout then e.expires.toNat else w.timeout
+        -- (transaction keys of proxy-generated branches are one key here and many in the implementation, whose table is
+        -- printed with such keys collapsed: the collapsed key is alive as long as any of them is)
+        let prevExp (k : Bytes) : Nat :=
+          if hasSub (str "z9hG4bK<BR>") k then
+            match w.pinExp.find? (fun x => x.1 == i && x.2.1 == k) with
+            | some x => x.2.2
+            | none => 0
+          else 0
+        let pinExp := (w.pinExp.filter fun x => !(x.1 == i && fresh.any (fun e => e.key == x.2.1)))
+                        ++ fresh.map fun e => (i, e.key, max (prevExp e.key) (w.now + lifetime e))
+        let st1 : St := { st1 with pins := st1.pins.map fun e =>
+          if e.expires > mark then e else (saved[(mark - e.expires).toNat]?).getD e }
+        ({ w with learned := st1.learned, pinExp := pinExp, proxies := w.proxies.set! i { p with st := st1 } }, res)
   | "state" =>
     let i := parseNat (kvGet m "p")
     match w.proxies[i]? with
@@ -159,7 +190,11 @@ def execPipe (w : PipeWorld) (op : String) (a : List String) : PipeWorld × Stri
     | some p =>
       let learned := sortStrings (w.learned.map fun e =>
         toHexField e.1 ++ "=" ++ toHexField (e.2.proto ++ [58] ++ e.2.addr ++ [58] ++ itoa e.2.port))
-      let pins := dedup (sortStrings (p.st.pins.map fun e =>
+      let alive (e : PinEntry) : Bool :=
+        match w.pinExp.find? (fun x => x.1 == i && x.2.1 == e.key) with
+        | some x => x.2.2 > w.now
+        | none => true
+      let pins := dedup (sortStrings ((p.st.pins.filter alive).map fun e =>
         toHexField e.key ++ "=" ++
           (if hasSub (str "z9hG4bK<BR>") e.key then "*"
            else match e.backend with | .rotation => "RR" | .member ad => toHexField ad)))
